@@ -12,6 +12,21 @@ from .values import *
 MAX_UNROLL = 2048
 
 
+_MISSING = object()
+
+
+def _plain_data(v, depth=0):
+    if v is None or isinstance(v, (bool, int, float, str, bytes)):
+        return True
+    if depth > 3:
+        return False
+    if isinstance(v, (list, tuple, set, frozenset)):
+        return all(_plain_data(x, depth + 1) for x in v)
+    if isinstance(v, dict):
+        return all(_plain_data(k, depth + 1) and _plain_data(x, depth + 1) for k, x in v.items())
+    return False
+
+
 class _Return(Exception):
     def __init__(self, v):
         self.v = v
@@ -113,6 +128,9 @@ class Engine:
         self.solver.set("timeout", 5000)
         self.summaries = {}               # qualname -> callable(E, func, args, kwargs) -> value
         self.loop_specs = {}              # (qualname, ordinal) -> LoopSpec
+        self.template_factory = None      # cls -> dict of instance attributes of a live object built by the real constructor (or None)
+        self.template_cache = {}
+        self.lazy_attrs = set()
         self.attr_hooks = {}              # attribute name -> hook(E, obj, name, 'get'|'set', value) (ownership / interference passes)
         self.inlined = set()
         self.used_models = set()
@@ -822,11 +840,16 @@ class Engine:
                     return r
             if name in obj.attrs:
                 return obj.attrs[name]
-            if name in obj.deleted:
-                pass
+            if name not in obj.deleted:
+                v = self.template_attr(obj.cls, name)
+                if v is not _MISSING:
+                    obj.attrs[name] = v
+                    return v
             return self.class_attr(obj, obj.cls, name)
         if isinstance(obj, SRef):
             if name in obj.schema:
+                return self.models.sref_get(self, obj, name)
+            if self.sref_lazy_attr(obj, name):
                 return self.models.sref_get(self, obj, name)
             return self.class_attr(obj, obj.cls, name)
         if obj is None:
@@ -869,6 +892,49 @@ class Engine:
         if self.is_live_instance(obj):
             return self.live_getattr(obj, name)
         raise Unsupported("getattr(%r, %s)" % (obj, name))
+
+    def template_attr(self, cls, name):
+        """An instance attribute the contract's symbolic object does not model, but a live object built by the real constructor has:
+        its initial value stands in as a type representative (plain data only), so that code reading or updating it (statistics
+        counters, cached values) runs instead of producing a spurious AttributeError.  Recorded in E.used_models."""
+        if inspect.getattr_static(cls, name, _MISSING) is not _MISSING:
+            return _MISSING
+        if cls not in self.template_cache:
+            d = None
+            if self.template_factory is not None:
+                try:
+                    d = self.template_factory(cls)
+                except Exception:
+                    d = None
+            self.template_cache[cls] = d
+        d = self.template_cache[cls]
+        if not d or name not in d:
+            return _MISSING
+        v = d[name]
+        if not _plain_data(v):
+            raise Unsupported("attribute %s.%s is not modelled by the contract and holds a %s" % (cls.__name__, name, type(v).__name__))
+        self.used_models.add("unmodelled-attribute:%s.%s (initial value of the real constructor as type representative)" % (cls.__name__, name))
+        import copy
+        return copy.deepcopy(v)
+
+    def sref_lazy_attr(self, ref, name):
+        """scalar attribute outside the contract's schema on a symbolic-identity object: a fresh attribute array (any value of the type)"""
+        if inspect.getattr_static(ref.cls, name, _MISSING) is not _MISSING and not isinstance(inspect.getattr_static(ref.cls, name), (int, bool)):
+            return False
+        v = inspect.getattr_static(ref.cls, name, _MISSING)
+        if v is _MISSING:
+            try:
+                v = self.template_attr(ref.cls, name)
+            except Unsupported:
+                return False
+        if v is _MISSING or not isinstance(v, (int, bool)):
+            return False
+        kind = "bool" if isinstance(v, bool) else "int"
+        ref.schema[name] = kind
+        self.lazy_attrs.add(name)
+        if name not in self.sheap:
+            self.sheap[name] = z3.Array(self.fresh("lazy_" + name), z3.IntSort(), z3.BoolSort() if kind == "bool" else z3.IntSort())
+        return True
 
     def is_live_instance(self, obj):
         """a real Python object built by the real interpreter from the repository's classes (e.g. codec Field objects in a STRUCT)"""
@@ -930,7 +996,7 @@ class Engine:
             obj.deleted.discard(name)
             return
         if isinstance(obj, SRef):
-            if name in obj.schema:
+            if name in obj.schema or self.sref_lazy_attr(obj, name):
                 return self.models.sref_set(self, obj, name, v)
             raise Unsupported("write of undeclared attribute %s on symbolic object" % name)
         if isinstance(obj, Namespace):
